@@ -48,7 +48,6 @@ import (
 	"git.arvados.org/arvados.git/lib/verifshim/vrep"
 	"git.arvados.org/arvados.git/sdk/go/arvados"
 	"git.arvados.org/arvados.git/sdk/go/ctxlog"
-	"git.arvados.org/arvados.git/sdk/go/keepclient"
 	"github.com/prometheus/client_golang/prometheus"
 	"github.com/sirupsen/logrus"
 )
@@ -174,9 +173,6 @@ func TestVerifC07Keepstore(t *testing.T) {
 		return s
 	}
 
-	if keepclient.ErrSignatureExpired != arvados.ErrSignatureExpired {
-		r.Violation("keepclient:alias-broken", "keepclient.ErrSignatureExpired is not arvados.ErrSignatureExpired", nil)
-	}
 
 	outcomes := map[string]int64{}
 	classes := map[string]bool{}
@@ -297,6 +293,51 @@ func TestVerifC07Keepstore(t *testing.T) {
 		})
 	}
 
+	// PUT round trip (handlePUT signs the returned locator for the caller's token): if the returned
+	// locator carries a +A hint it must be the reference signature for (hash, token, its expiry,
+	// configured TTL) under the configured key, and a GET with it and the same token must return
+	// the block.  An unsigned answer is recorded, not judged (the statement does not cover PUT).
+	doPut := func() {
+		for _, key := range g.Keys {
+			for _, tok := range g.Tokens {
+				for _, h := range g.Hashes {
+					const ttl = 1209600
+					s := routerFor(key, ttl)
+					data := store[h]
+					req, err := http.NewRequest("PUT", "http://keep0.zzzzz.example/", bytes.NewReader(data))
+					if err != nil {
+						panic(err)
+					}
+					req.URL.Path = "/" + h
+					req.Header.Set("Authorization", "OAuth2 "+tok)
+					rec := httptest.NewRecorder()
+					s.h.ServeHTTP(rec, req)
+					r.Eval(1)
+					loc := strings.TrimSuffix(rec.Body.String(), "\n")
+					if rec.Code != 200 {
+						outcomes[fmt.Sprintf("PUT -> %d", rec.Code)]++
+						continue
+					}
+					if !strings.Contains(loc, "+A") {
+						outcomes["PUT -> 200, unsigned locator"]++
+						continue
+					}
+					e := c07ref.Classify(loc, tok, ttl, key, g.Now, g.Margin)
+					code, body := doReq(s, "GET", loc, tok)
+					outcomes[fmt.Sprintf("PUT -> 200 signed locator, GET with it -> %d", code)]++
+					r.Distinct("put|" + h + "|" + tok + "|" + string(key))
+					if !e.MustOK {
+						r.Violation("keepstore.PUT:returned-signature-is-not-the-reference-signature",
+							fmt.Sprintf("PUT /%s token=%q key=%x ttl=%d returned %q, which is not a canonical locator with the HMAC-SHA1 of hash@token@expiry@ttl (expectation %+v)", h, tok, key, ttl, loc, e), nil)
+					} else if code != 200 || !bytes.Equal(body, data) {
+						r.Violation("keepstore.PUT:returned-locator-not-accepted-by-GET",
+							fmt.Sprintf("PUT /%s token=%q key=%x returned %q; GET with it -> %d %q", h, tok, key, loc, code, c07trunc(body)), nil)
+					}
+				}
+			}
+		}
+	}
+
 	var doc c07ksReplay
 	if vrep.ReplayDoc(&doc) {
 		key, _ := hex.DecodeString(doc.KeyHex)
@@ -324,6 +365,9 @@ func TestVerifC07Keepstore(t *testing.T) {
 			}
 			doBase(b)
 		})
+		if i, _ := vrep.Shard(); i == 0 {
+			doPut()
+		}
 	}
 	for k, n := range outcomes {
 		for i := int64(0); i < n; i++ {
